@@ -14,10 +14,13 @@ import FcProofs.Lemmas.LexsortRuns
 namespace Fc
 variable {α : Type}
 
-/-- adjacent equality of keys, with the trailing `False` -/
-def adjEq (k : α → Int) : List α → List Bool
-  | a :: b :: t => (k a == k b) :: adjEq k (b :: t)
+/-- the adjacent-pair test along a list, with the trailing `False` -/
+def adjEqBy (e : α → α → Bool) : List α → List Bool
+  | a :: b :: t => e a b :: adjEqBy e (b :: t)
   | _ => [false]
+
+/-- adjacent equality of keys, with the trailing `False` -/
+abbrev adjEq (k : α → Int) : List α → List Bool := adjEqBy fun a b => k a == k b
 
 /-- the run detection of the code computes `adjEq` of the cluster keys when "close" is equality
     of cluster keys on the items in play -/
@@ -29,45 +32,37 @@ theorem adjacentClose_eq_adjEq (close : Int → Int → Bool) (key k : α → In
   | a :: b :: t, h => by
     have ih := adjacentClose_eq_adjEq close key k (b :: t)
       (fun x hx y hy => h x (List.mem_cons_of_mem _ hx) y (List.mem_cons_of_mem _ hy))
-    simp only [List.map_cons, adjacentClose, adjEq] at ih ⊢
+    simp only [List.map_cons, adjacentClose, adjEq, adjEqBy] at ih ⊢
     rw [ih, h a (List.mem_cons_self ..) b (List.mem_cons_of_mem _ (List.mem_cons_self ..))]
 
-theorem splitKey_cons_cons (k : α → Int) (a b : α) (t h : List α) (hs : List (List α))
-    (hh : splitKey k (b :: t) = h :: hs) :
-    splitKey k (a :: b :: t) = if k a = k b then (a :: h) :: hs else [a] :: h :: hs := by
-  conv_lhs => unfold splitKey
-  simp only [hh]
-
-/-- the mask of the key-split of one group is its adjacent-equality mask -/
-theorem adjEq_eq_maskOf_splitKey (k : α → Int) : ∀ g : List α, g ≠ [] → adjEq k g = maskOf (splitKey k g)
+/-- the mask of the split of one group is its adjacent-test mask -/
+theorem adjEqBy_eq_maskOf_splitBy (e : α → α → Bool) :
+    ∀ g : List α, g ≠ [] → adjEqBy e g = maskOf (splitBy e g)
   | [], h => absurd rfl h
-  | [_], _ => by simp [adjEq, splitKey, maskOf1]
+  | [_], _ => by simp [adjEqBy, splitBy, maskOf1]
   | a :: b :: t, _ => by
-    have ih := adjEq_eq_maskOf_splitKey k (b :: t) (by simp)
-    obtain ⟨h, hs, hh⟩ := splitKey_cons_head k b t
-    simp only [adjEq]
-    unfold splitKey
-    rw [hh] at ih ⊢
-    by_cases hk : k a = k b
-    · simp only [hk, if_true, beq_self_eq_true, maskOf_cons, maskOf1, List.cons_append]
-      rw [ih]; simp
-    · have : (k a == k b) = false := by simpa using hk
-      simp only [hk, if_false, this, maskOf_cons, maskOf1, List.cons_append, List.nil_append]
-      rw [ih]; simp
+    have ih := adjEqBy_eq_maskOf_splitBy e (b :: t) (by simp)
+    obtain ⟨h, hs, hh⟩ := splitBy_cons_head e b t
+    simp only [adjEqBy]
+    rw [splitBy_cons_cons e a b t _ _ hh, ih, hh]
+    cases hk : e a b <;> simp [maskOf1]
+
+theorem adjEq_eq_maskOf_splitKey (k : α → Int) (g : List α) (hg : g ≠ []) :
+    adjEq k g = maskOf (splitKey k g) := adjEqBy_eq_maskOf_splitBy _ g hg
 
 /-- **`logical_and` of the masks = splitting inside the segments.** -/
-theorem mask_and_adjEq (k : α → Int) :
+theorem mask_and_adjEqBy (e : α → α → Bool) :
     ∀ (gs : List (List α)), (∀ g ∈ gs, g ≠ []) →
-      List.zipWith (· && ·) (maskOf gs) (adjEq k gs.flatten) = maskOf (gs.flatMap (splitKey k))
+      List.zipWith (· && ·) (maskOf gs) (adjEqBy e gs.flatten) = maskOf (gs.flatMap (splitBy e))
   | [], _ => by simp
   | g :: gs, hne => by
     have hne' : ∀ g' ∈ gs, g' ≠ [] := fun g' h' => hne g' (List.mem_cons_of_mem _ h')
-    have ihO := mask_and_adjEq k gs hne'
+    have ihO := mask_and_adjEqBy e gs hne'
     have hg : g ≠ [] := hne g (List.mem_cons_self ..)
     -- inner induction over the first group
     have inner : ∀ (g : List α), g ≠ [] →
-        List.zipWith (· && ·) (maskOf1 g ++ maskOf gs) (adjEq k (g ++ gs.flatten)) =
-          maskOf (splitKey k g) ++ maskOf (gs.flatMap (splitKey k)) := by
+        List.zipWith (· && ·) (maskOf1 g ++ maskOf gs) (adjEqBy e (g ++ gs.flatten)) =
+          maskOf (splitBy e g) ++ maskOf (gs.flatMap (splitBy e)) := by
       intro g
       induction g with
       | nil => intro h; exact absurd rfl h
@@ -75,7 +70,7 @@ theorem mask_and_adjEq (k : α → Int) :
         intro _
         cases g' with
         | nil =>
-          simp only [maskOf1, List.cons_append, List.nil_append, splitKey, maskOf_cons, maskOf_nil,
+          simp only [maskOf1, List.cons_append, List.nil_append, splitBy, maskOf_cons, maskOf_nil,
             List.append_nil]
           cases hfl : gs.flatten with
           | nil =>
@@ -87,23 +82,24 @@ theorem mask_and_adjEq (k : α → Int) :
                 simp only [List.flatten_cons, List.append_eq_nil_iff] at hfl
                 exact absurd hfl.1 this
             subst hgs
-            simp [adjEq]
+            simp [adjEqBy]
           | cons c u =>
             rw [hfl] at ihO
-            simp only [adjEq, List.zipWith_cons_cons, Bool.false_and]
+            simp only [adjEqBy, List.zipWith_cons_cons, Bool.false_and]
             rw [ihO]
         | cons b t =>
           have ih' := ih (by simp)
-          obtain ⟨h, hs, hh⟩ := splitKey_cons_head k b t
-          simp only [maskOf1, List.cons_append, adjEq, List.zipWith_cons_cons, Bool.true_and] at ih' ⊢
-          rw [ih', splitKey_cons_cons k a b t (b :: h) hs hh, hh]
-          by_cases hk : k a = k b
-          · simp [hk, maskOf1]
-          · have : (k a == k b) = false := by simpa using hk
-            simp [hk, this, maskOf1]
+          obtain ⟨h, hs, hh⟩ := splitBy_cons_head e b t
+          simp only [maskOf1, List.cons_append, adjEqBy, List.zipWith_cons_cons, Bool.true_and] at ih' ⊢
+          rw [ih', splitBy_cons_cons e a b t (b :: h) hs hh, hh]
+          cases hk : e a b <;> simp [maskOf1]
     simp only [maskOf_cons, List.flatten_cons, List.flatMap_cons]
     rw [inner g hg]
     simp [maskOf]
+
+theorem mask_and_adjEq (k : α → Int) (gs : List (List α)) (hne : ∀ g ∈ gs, g ≠ []) :
+    List.zipWith (· && ·) (maskOf gs) (adjEq k gs.flatten) = maskOf (gs.flatMap (splitKey k)) :=
+  mask_and_adjEqBy _ gs hne
 
 /-! ### breadth-first form of the segment sort -/
 
